@@ -134,10 +134,10 @@ def corpus0(tier, seed):
         out.append(("str:" + name, g, {"curated", "structured"}))
     # conflict gadgets with seeded priorities/associativity: parsers whose tables exist only
     # because the meta-data resolved shift/reduce and reduce/reduce conflicts
-    for gid, g, tags in gadget_grammars(seed, 36 if tier == "quick" else 360):
+    for gid, g, tags in gadget_grammars(seed, 36 if tier == "quick" else 180):
         out.append((gid, g, {"meta", "gadget"}))
     rng = random.Random(seed * 7919 + 11)
-    nfam = 150 if tier == "quick" else 2500
+    nfam = 150 if tier == "quick" else 1200
     fam = [g for g in G.family(2, 2, 3, 2) if G.useful(g)]
     fam1 = [g for g in G.family(1, 2, 3, 3) if G.useful(g)]
     pick = rng.sample(range(len(fam)), min(nfam, len(fam)))
@@ -146,7 +146,7 @@ def corpus0(tier, seed):
     pick = rng.sample(range(len(fam1)), min(nfam // 3, len(fam1)))
     for i in sorted(pick):
         out.append(("fam1233:%d" % i, fam1[i], {"family"}))
-    nrand = 200 if tier == "quick" else 3000
+    nrand = 200 if tier == "quick" else 1500
     for i in range(nrand):
         r = random.Random("%d-%d" % (seed, i))
         meta = i % 3 == 0
@@ -272,7 +272,7 @@ def stage_lr(work, tier, seed):
     """Real LRParser runs on corpus grammars (LALR and LALR_PAGER tables),
     validated by TraceLR (one TLC state per recorded event)."""
     tab = get(work, "tables", tier, seed)
-    n_sent, n_mut = (6, 8) if tier == "quick" else (14, 20)
+    n_sent, n_mut = (6, 8) if tier == "quick" else (10, 12)
     cases = []
     inputs = {}
     gtext = {}
@@ -2077,7 +2077,7 @@ def stage_ast(work, tier, seed):
     # sugar-rich documents with numbered content tokens: the sentence generator knows which
     # tokens the AST must hold (C10) for repetitions, separators, optionals, names and ?= flags
     rnga = random.Random(seed * 71 + 13)
-    for i in range(120 if tier == "quick" else 1500):
+    for i in range(120 if tier == "quick" else 800):
         doc = ast_doc(rnga)
         text = render_ast_doc(doc)
         sents = [ast_doc_sentence(doc, rnga) for _ in range(3)]
@@ -2095,7 +2095,7 @@ def stage_ast(work, tier, seed):
     rngd = random.Random(seed * 53 + 11)
     gcombos = [dict(algo="lr"), dict(algo="glr"), dict(algo="lr", tt="rn"), dict(algo="glr", loc_info=True),
                dict(algo="lr", loc_info=True, gen="arrays"), dict(algo="glr", gen="arrays")]
-    for i in range(150 if tier == "quick" else 1500):
+    for i in range(150 if tier == "quick" else 800):
         k += 1
         insts.append({"name": "a%d" % k, "shape": "gen:%d" % i, "grammar": G.docgen(rngd),
                       "settings": dict(gcombos[i % len(gcombos)], builder="default"), "inputs": [], "nones": None,
